@@ -616,6 +616,12 @@ class OPENQASMVisitor(Visitor):
         elif len(qubit_childs) == 2 and len(class_childs) == 2:
             # measure qubits to clbits
             class_index = int(class_childs[1])
+            for name, size in self.classical_regs:
+                if name == class_reg_name and class_index >= size:
+                    raise LangException(
+                        'Classical bit index out of range:'
+                        f' {class_reg_name}[{class_index}].',
+                    )
             measurements[location[0]] = (class_reg_name, class_index)
             mph = MeasurementPlaceholder(cregs, measurements)
 
